@@ -451,6 +451,180 @@ def ccase(case, res):
     return f"({cstate(case['src'])}, {cstate(case['tgt'])}, {steps})"
 
 
+# ================================================================================================ dimension-record closure
+# (wave 4b) which rows of which dimension-element tables reach the target: transfer_from(transfer_dimensions=True),
+# transfer_dimension_records_from and export + import_ for selections mixing dataset types over {visit, detector},
+# {visit}, {exposure}, {detector}; sources with visit_definition, visit_detector_region, visit_system_membership rows.
+HDR_D = "From Coq Require Import NArith List Bool.\nFrom V Require Import Model.TransferDims.\nImport ListNotations.\nOpen Scope N_scope.\n"
+DIM_NAMES = {1: "instrument", 2: "day_obs", 3: "detector", 4: "group", 5: "physical_filter", 6: "visit_system", 7: "exposure",
+             8: "visit", 9: "visit_definition", 10: "visit_detector_region", 11: "visit_system_membership"}
+DIM_OPS = {0: "ExIm", 1: "Xfer", 2: "XDim"}
+DIM_FIXED = [
+    # the shape the populated-by walk needs: a {visit, detector} dataset with a region row and visit_system_membership rows
+    {"src": {"dets": [1, 2], "vsys": [0], "exps": [10, 11], "visits": [20, 21], "vdef": [[20, 10], [21, 11]],
+             "vsm": [[20, 0], [21, 0]], "vdr": [[20, 1], [20, 2], [21, 1], [21, 2]], "dsets": [[1, 0, 21, 1], [2, 3, 1, 0]]},
+     "tgt": None, "op": 1, "sel": [1, 2]},
+    {"src": {"dets": [1, 2], "vsys": [0], "exps": [10, 11], "visits": [20, 21], "vdef": [[20, 10], [21, 11]],
+             "vsm": [[20, 0], [21, 0]], "vdr": [[20, 1], [20, 2], [21, 1], [21, 2]], "dsets": [[1, 0, 21, 1], [2, 3, 1, 0]]},
+     "tgt": None, "op": 2, "sel": [1, 2]},
+    # mixed selection: {visit, detector} + {visit} + {exposure}; two visit systems; visit 20 made of two exposures
+    {"src": {"dets": [0, 1], "vsys": [0, 1], "exps": [10, 11, 12], "visits": [20, 21], "vdef": [[20, 10], [20, 12], [21, 11]],
+             "vsm": [[20, 0], [21, 0], [21, 1]], "vdr": [[20, 0], [20, 1], [21, 1]],
+             "dsets": [[1, 0, 20, 1], [2, 1, 21, 0], [3, 2, 11, 0], [4, 3, 0, 0]]},
+     "tgt": {"dets": [1], "vsys": [0], "exps": [], "visits": [21], "vsm": [[21, 0]]}, "op": 1, "sel": [1, 2, 3, 4]},
+    {"src": {"dets": [0, 1], "vsys": [0, 1], "exps": [10, 11, 12], "visits": [20, 21], "vdef": [[20, 10], [20, 12], [21, 11]],
+             "vsm": [[20, 0], [21, 0], [21, 1]], "vdr": [[20, 0], [20, 1], [21, 1]],
+             "dsets": [[1, 0, 20, 1], [2, 1, 21, 0], [3, 2, 11, 0], [4, 3, 0, 0]]},
+     "tgt": None, "op": 0, "sel": [1, 2, 3, 4]},
+]
+
+
+def gen_dim_case(rng: random.Random):
+    dets = sorted(rng.sample([0, 1, 2], rng.randrange(1, 4)))
+    vsys = sorted(rng.sample([0, 1], rng.randrange(1, 3)))
+    exps = sorted(rng.sample([10, 11, 12, 13], rng.randrange(1, 5)))
+    visits = sorted(rng.sample([20, 21, 22, 23], rng.randrange(1, 5)))
+    vdef = [[v, e] for v in visits for e in exps if v % 2 == e % 2 and rng.random() < 0.6]
+    vsm = [[v, s] for v in visits for s in vsys if rng.random() < 0.6]
+    vdr = [[v, d] for v in visits for d in dets if rng.random() < 0.6]
+    dsets, used = [], set()
+    for _ in range(rng.randrange(2, 7)):
+        k = rng.choice([0, 0, 1, 1, 2, 3])
+        a = rng.choice(visits) if k < 2 else (rng.choice(exps) if k == 2 else rng.choice(dets))
+        b = rng.choice(dets) if k == 0 else 0
+        if (k, a, b) not in used:
+            used.add((k, a, b))
+            dsets.append([len(dsets) + 1, k, a, b])
+    ids = [x[0] for x in dsets]
+    sel = sorted(rng.sample(ids, rng.randrange(1, len(ids) + 1)))
+    tgt = None
+    if rng.random() < 0.5:
+        tv = [v for v in visits if rng.random() < 0.5]
+        ts = [s_ for s_ in vsys if rng.random() < 0.5]
+        tgt = {"dets": [d for d in dets if rng.random() < 0.5], "vsys": ts, "exps": [e for e in exps if rng.random() < 0.4],
+               "visits": tv, "vsm": [p for p in vsm if p[0] in tv and p[1] in ts and rng.random() < 0.5]}
+    return {"src": {"dets": dets, "vsys": vsys, "exps": exps, "visits": visits, "vdef": vdef, "vsm": vsm, "vdr": vdr, "dsets": dsets},
+            "tgt": tgt, "op": rng.choice([0, 1, 1, 2]), "sel": sel}
+
+
+def dim_reach(src, sel, op):
+    """From the statement: (must, may) = records reachable from the selection's data IDs through required and implied
+    elements (records inside the expanded data ID), and -- for the butler-to-butler operations -- through the elements
+    populated by a dimension of the data ID (visit_definition, visit_system_membership of each visit, with the exposures,
+    groups and visit systems they point at).  visit_detector_region rows of a visit beyond the (visit, detector) pairs named
+    by a data ID are allowed, not demanded (the code copies them for some selections and not for others)."""
+    defs = {n: (k, a, b) for n, k, a, b in src["dsets"]}
+    must, may = set(), set()
+
+    def visit(v):
+        return {(1, 0, 0), (2, 1, 0), (5, v % 2, 0), (8, v, 0)}
+
+    def exposure(e):
+        return {(1, 0, 0), (2, 1, 0), (4, e, 0), (5, e % 2, 0), (7, e, 0)}
+
+    for n in sel:
+        k, a, b = defs[n]
+        if k == 0:
+            must |= visit(a) | {(3, b, 0)}
+            if [a, b] in src["vdr"]:
+                must.add((10, a, b))
+        elif k == 1:
+            must |= visit(a)
+        elif k == 2:
+            must |= exposure(a)
+        else:
+            must |= {(1, 0, 0), (3, a, 0)}
+        if k < 2:
+            extra = set()
+            for v, e in src["vdef"]:
+                if v == a:
+                    extra |= {(9, v, e)} | exposure(e)
+            for v, s_ in src["vsm"]:
+                if v == a:
+                    extra |= {(11, v, s_), (6, s_, 0)}
+            may |= extra
+            if op != 0:
+                must |= extra
+            for v, d in src["vdr"]:
+                if v == a:
+                    may |= {(10, v, d), (3, d, 0)}
+    return must, may | must
+
+
+def dim_oracle(ctx, case, res, origin):
+    op = DIM_OPS[case["op"]]
+
+    def fail(sig, what):
+        ctx.oracle_fail(sig, {"dimcase": {k: case[k] for k in ("src", "tgt", "op", "sel")}, "origin": origin}, what)
+
+    if res["out"] != "Ok":
+        fail(f"dimrec-refused:{op}", f"{op} {case['sel']} refused: {res['out']} {res['msg'][:200]}")
+        return
+    if not res.get("src_same", True):
+        fail(f"source-changed:{op}", f"{op}: the source repository was modified")
+    pre, post, srows = ({tuple(r) for r in res[k]["rows"]} for k in ("tgt0", "tgt1", "src0"))
+    must, may = dim_reach(case["src"], case["sel"], case["op"])
+    if not must <= srows:
+        ctx.tie_broken("harness", "dim_oracle", f"{origin}: oracle closure {sorted(must - srows)} is not in the source repository")
+        return
+    for r in sorted(pre - post):
+        fail(f"dimrec-lost:{DIM_NAMES[r[0]]}:{op}", f"{op} {case['sel']}: record {r} of the target disappeared")
+    for r in sorted(must - post):
+        fail(f"dimrec-missing:{DIM_NAMES[r[0]]}:{op}",
+             f"{op} of datasets {case['sel']} ({[x for x in case['src']['dsets'] if x[0] in case['sel']]}): {DIM_NAMES[r[0]]} record {r[1:]} "
+             f"is reachable from the selection's data IDs in the source and is not in the target")
+    for r in sorted(post - pre - may):
+        fail(f"dimrec-extra:{DIM_NAMES[r[0]]}:{op}", f"{op} {case['sel']}: {DIM_NAMES[r[0]]} record {r[1:]} appeared but is not reachable from the selection")
+    if case["op"] != 2 and sorted(set(res["tgt1"]["dsets"]) - set(res["tgt0"]["dsets"])) != sorted(case["sel"]):
+        fail(f"dimrec-datasets:{op}", f"{op} {case['sel']}: datasets in the target afterwards {res['tgt1']['dsets']}")
+
+
+def cdimcase(case, res):
+    s = case["src"]
+    pl = lambda l: clist(f"({cn(a)}, {cn(b)})" for a, b in l)
+    rows = lambda l: clist(f"({cn(a)}, {cn(b)}, {cn(c)})" for a, b, c in l)
+    defs = {n: (k, a, b) for n, k, a, b in s["dsets"]}
+    sel = clist(f"({cn(defs[n][0])}, {cn(defs[n][1])}, {cn(defs[n][2])})" for n in case["sel"])
+    return f"(DS {pl(s['vdef'])} {pl(s['vsm'])} {pl(s['vdr'])}, {rows(res['tgt0']['rows'])}, {cn(case['op'])}, {sel}, {rows(res['tgt1']['rows'])})"
+
+
+def run_dims(ctx, cases, origins):
+    payloads = [{"cases": cases[i:i + 4]} for i in range(0, len(cases), 4)]
+    outs = parallel_workers("c19_impl", "run_dim_cases", payloads, timeout=600)
+    coq, meta = [], []
+    k = 0
+    for (status, r), pay in zip(outs, payloads):
+        if status != "ok":
+            if status == "hang":
+                ctx.oracle_fail("hang", {"dimcases": pay["cases"]}, "a worker running dimension-record cases did not return")
+            else:
+                ctx.tie_broken("harness", "worker", str(r)[-1500:])
+            k += len(pay["cases"])
+            continue
+        for case, res in zip(pay["cases"], r):
+            org = origins[k]
+            k += 1
+            if res.get("build") != "ok":
+                ctx.tie_broken("harness", "dim_build", f"{org}: {res.get('build')}")
+                continue
+            ctx.count(11)
+            ctx.hist("action", "dim:" + DIM_OPS[case["op"]])
+            ctx.hist("outcome", res["out"])
+            dim_oracle(ctx, case, res, org)
+            kinds = {x[1] for x in case["src"]["dsets"] if x[0] in case["sel"]}
+            if case["op"] != 0 and kinds & {0, 1} and (case["src"]["vsm"] or case["src"]["vdef"]):
+                ctx.nontrivial({"dimcase": case})
+            if res["out"] == "Ok":
+                coq.append(cdimcase(case, res))
+                meta.append((case, res, org))
+    bad = ctx.coq_cases("dimcases", HDR_D, coq, "chk_dims", shard=40, timeout=600)
+    for i in (bad or [])[:5]:
+        case, res, org = meta[i]
+        ctx.disagreement("dimcases", {"origin": org, "dimcase": case},
+                         f"{DIM_OPS[case['op']]} {case['sel']}: dimension-element rows of the target differ from the model; observed {res['tgt1']['rows']}")
+    return bad
+
+
 # ------------------------------------------------------------------------------------------------ run
 def nontrivial_rule(case, res):
     """at least one accepted action that added datasets to the target AND (a repeated action, or a refused action, or a
@@ -562,15 +736,23 @@ def run(ctx: Ctx):
         "transfer modes, half of them repeated) is non-trivial when at least one action was accepted and added datasets "
         "to the target AND the case has a repeated action, a refused action or a pre-populated target; the whole "
         "observable target (records, types, collections, chains, dataset rows, contents through get, tags, validity "
-        "ranges) is compared after every action"
+        "ranges) is compared after every action; dimension-record cases (sources with visits, exposures, detectors, "
+        "visit systems, visit_definition / visit_detector_region / visit_system_membership rows; dataset types over "
+        "{visit, detector}, {visit}, {exposure}, {detector}; export+import_, transfer_from(transfer_dimensions=True), "
+        "transfer_dimension_records_from; all 11 dimension-element tables of the target compared) are non-trivial when a "
+        "butler-to-butler operation moves a dataset with a visit from a source that has populated-by rows"
     )
-    props_ok = ctx.build_props(extra_targets=["Model/TransferCheck.vo"])
+    props_ok = ctx.build_props(extra_targets=["Model/TransferCheck.vo", "Model/TransferDims.vo"])
     if not props_ok:
-        coq_make(["Model/TransferCheck.vo"])
+        coq_make(["Model/TransferCheck.vo", "Model/TransferDims.vo"])
 
     cases, origins = [], []
+    dimcases, dimorigins = [], []
     if ctx.replay:
         j = json.load(open(ctx.replay))
+        if j.get("dimcase") or j.get("dimcases"):
+            run_dims(ctx, [j.get("dimcase") or j["dimcases"][0]], ["replay"])
+            return
         c = j.get("case") or (j.get("cases") or [None])[0]
         cases, origins = [dict(c, label="replay")], ["replay"]
     else:
@@ -582,6 +764,9 @@ def run(ctx: Ctx):
         for k in range(n):
             cases.append(gen_case(ctx.rng))
             origins.append(f"seed{ctx.seed}/{k}")
+        drng = random.Random(ctx.rng.randrange(1 << 30))
+        dimcases = [json.loads(json.dumps(c)) for c in DIM_FIXED] + [gen_dim_case(drng) for _ in range(24 if ctx.quick else 200)]
+        dimorigins = [f"dimfixed/{i}" for i in range(len(DIM_FIXED))] + [f"dimseed{ctx.seed}/{i}" for i in range(len(dimcases) - len(DIM_FIXED))]
     results = execute(ctx, cases, chunk=3 if ctx.quick else 6)
     coq, meta = process(ctx, cases, origins, results)
     if meta:
@@ -590,6 +775,8 @@ def run(ctx: Ctx):
                     "outcomes": [s["out"] for s in res["steps"]], "target_after": res["steps"][-1]["tgt"] if res["steps"] else None})
         ctx.sample({"coq_case": coq[min(len(meta) - 1, 3)][:1800]})
     compare(ctx, "cases", coq, meta)
+    if dimcases:
+        run_dims(ctx, dimcases, dimorigins)
 
     if ctx.broken and not ctx.oracle_failures and not ctx.replay:
         ctx.log("obligation/tie broken without oracle failure: searching deeper on the implementation")
